@@ -55,3 +55,39 @@ def hostile_models(rng, n, big=False):
         else:
             out.append(("valid:" + name, base))
     return out
+
+
+def systematic_dom_faults(xml, rng):
+    """Every element occurrence x {empty form, removed, duplicated, nested in itself, text removed} and every attribute
+    occurrence x {removed, emptied, duplicated}: the faults byte fuzzing reaches slowly."""
+    out = []
+    for m in faults.tags(xml):
+        if m.group(1):
+            continue
+        name = m.group(2)
+        sp = faults.element_span(xml, m)
+        if sp:
+            s, e = sp
+            el = xml[s:e]
+            out.append(("dom:empty:" + name, xml[:s] + "<%s%s/>" % (name, m.group(3)) + xml[e:]))
+            out.append(("dom:remove:" + name, xml[:s] + xml[e:]))
+            out.append(("dom:duplicate:" + name, xml[:e] + el + xml[e:]))
+            if not m.group(4):
+                out.append(("dom:nest:" + name, xml[:m.end()] + el + xml[m.end():]))
+                inner_end = el.rfind("</")
+                if inner_end > 0:
+                    out.append(("dom:notext:" + name, xml[:m.end()] + xml[s + inner_end:]))
+                    out.append(("dom:open-close:" + name, xml[:s] + "<%s%s></%s>" % (name, m.group(3), name) + xml[e:]))
+        for a in faults._ATTR.finditer(m.group(3)):
+            base = m.start(3)
+            s, e = base + a.start(), base + a.end()
+            out.append(("dom:rm-attr:%s@%s" % (name, a.group(1)), xml[:s] + xml[e:]))
+            out.append(("dom:empty-attr:%s@%s" % (name, a.group(1)), xml[:s] + ' %s=""' % a.group(1) + xml[e:]))
+    return out
+
+
+RICH_QUERIES = ("<queries><option key=\"--a\" value=\"1\"/><query><formula>A[] not deadlock</formula><comment>c</comment>"
+                "<option key=\"--diagnostic\" value=\"0\"/><expect outcome=\"success\" type=\"quality\" value=\"true\">"
+                "<resource type=\"time\" value=\"1\" unit=\"s\"/></expect><result outcome=\"success\" type=\"quality\" "
+                "value=\"true\" timestamp=\"t\"><option key=\"k\" value=\"v\"/></result></query><query><formula>E&lt;&gt; true</formula>"
+                "<comment/></query></queries>")
